@@ -276,3 +276,13 @@ Theorem C05_pipeline_set_invariant_implicit :
        (forall T'', In T'' (glued_of strat host'' p'') -> exists T, In T (glued_of strat host p) /\ obs_eq (relabel pi T) T'')).
 Proof. exact thm_pipeline_set_invariant_implicit. Qed.
 Print Assumptions C05_pipeline_set_invariant_implicit.
+
+(** 3''. The same inclusion for RESULTS: every glued ITS graph of the component-aware strategy, and of the fallback
+    strategy, is (up to [obs_eq]) a glued ITS graph of the exhaustive strategy on the same inputs — although the three
+    strategies keep different representatives of the pruning classes.  Premise [side_okb_c], evaluated on every writing. *)
+Theorem C05_strategy_subset_results :
+  forall (host : hostg) (p : prepared), side_okb_c host p = true ->
+    (forall T, In T (glued_of 1%N host p) -> exists T', In T' (glued_of 0%N host p) /\ obs_eq T T') /\
+    (forall T, In T (glued_of 2%N host p) -> exists T', In T' (glued_of 0%N host p) /\ obs_eq T T').
+Proof. exact thm_strategy_subset_results. Qed.
+Print Assumptions C05_strategy_subset_results.
